@@ -51,7 +51,7 @@ def run_devices(ctx, jobs_spec, n_random_maps, observe="all", only_if=None, extr
     maps = maps_for(ctx, n_random_maps)
     mp = os.path.join(ctx.out, "maps.json")
     json.dump(maps, open(mp, "w"))
-    mism, summary, _ = run_bin(bindir, "devices", ["replay", allb, mp, "--observe", observe] + list(extra_args), timeout=3000)
+    mism, summary, _ = vlib.run_bin_checked_too("devices", ["replay", allb, mp, "--observe", observe] + list(extra_args), timeout=3000)
     ctx.evaluations += summary.get("replays", 0)
     ctx.traces += summary.get("behaviours", 0)
     ctx.extra["replay_summary"] = summary
@@ -87,7 +87,7 @@ def replay_devices(pid, v):
     open(bp, "w").write(json.dumps(v["behaviour"]) + "\n")
     mp = os.path.join(out, "replay_one_maps.json")
     json.dump([v["map"]], open(mp, "w"))
-    bindir = build_harness(["devices"])
+    bindir = build_harness(["devices"], checked=bool(v.get("mismatch", {}).get("build")))
     mism, summary, _ = run_bin(bindir, "devices", ["replay", bp, mp, "--observe", v.get("observe", "all")] + list(v.get("extra_args", [])))
     return mism[0] if mism else None
 
